@@ -29,6 +29,7 @@ const hookImport = "github.com/hyperjumptech/grule-rule-engine/verifhook"
 type report struct {
 	OrderSites int      `json:"order_sites"`
 	PointSites int      `json:"point_sites"`
+	KeySites   int      `json:"key_sites"`
 	Files      []string `json:"files"`
 }
 
@@ -71,6 +72,16 @@ func main() {
 		done[engFile] = true
 	}
 
+	kbFile := filepath.Join(*repo, "ast", "KnowledgeBase.go")
+	if n, src := instrumentFile(kbFile, false, false, "ast"); n > 0 && !*points {
+		dst := filepath.Join(*out, "src", "ast_KnowledgeBase.go")
+		must(os.WriteFile(dst, src, 0o644))
+		replace[kbFile] = dst
+		rep.KeySites = n
+		rep.Files = append(rep.Files, kbFile)
+		done[kbFile] = true
+	}
+
 	if *points {
 		for _, pkgDir := range []string{"ast", "engine", "pkg"} {
 			files, _ := filepath.Glob(filepath.Join(*repo, pkgDir, "*.go"))
@@ -103,11 +114,12 @@ func main() {
 	must(os.WriteFile(filepath.Join(*out, "overlay.json"), ov, 0o644))
 	rj, _ := json.MarshalIndent(rep, "", " ")
 	must(os.WriteFile(filepath.Join(*out, "instrument.json"), rj, 0o644))
-	fmt.Printf("instrument: order_sites=%d point_sites=%d files=%d\n", rep.OrderSites, rep.PointSites, len(rep.Files))
+	fmt.Printf("instrument: order_sites=%d key_sites=%d point_sites=%d files=%d\n", rep.OrderSites, rep.KeySites, rep.PointSites, len(rep.Files))
 }
 
 // instrumentFile returns the number of sites rewritten and the new source.
 func instrumentFile(path string, order, points bool, pkg string) (int, []byte) {
+	keyed := points || strings.HasSuffix(path, "ast/KnowledgeBase.go")
 	fset := token.NewFileSet()
 	f, err := parser.ParseFile(fset, path, nil, parser.ParseComments)
 	if err != nil {
@@ -137,8 +149,8 @@ func instrumentFile(path string, order, points bool, pkg string) (int, []byte) {
 			return true
 		})
 	}
-	if points {
-		// deterministic iteration for `for k, v := range X.RuleEntries` (clone order decides the
+	if keyed {
+		// harness-chosen iteration for `for k, v := range X.RuleEntries` (clone order decides the
 		// sequence of yield points): for _, k := range verifhook.Keys(X.RuleEntries) { v := X.RuleEntries[k]; ... }
 		ast.Inspect(f, func(nd ast.Node) bool {
 			rs, ok := nd.(*ast.RangeStmt)
@@ -163,6 +175,8 @@ func instrumentFile(path string, order, points bool, pkg string) (int, []byte) {
 			n++
 			return true
 		})
+	}
+	if points {
 		for _, d := range f.Decls {
 			fd, ok := d.(*ast.FuncDecl)
 			if !ok || fd.Body == nil {
